@@ -90,6 +90,11 @@ CHECKS = {
          "For OptDensMinHash and RevOptDensMinHash (float f32/f64, u64 and u32 views; Fnv and no-op hashers), sketch sizes m in {1,2,3,5,8,16,33,64} - from m << |S| to m = 16|S| where >95% of bins are produced by densification - every set shape with union <=4 (5) and EVERY assignment of block identifiers (10 (13) ids, two blocks; 6.7e5 subset triples, 3.5e7 position comparisons quick): collisions(p) x |A∪B| == labellings x |A∩B| for every position and view, exactly. Broken identities are arbitrated on 2e5 fresh labellings. Six large-set shapes (dense, sparse, very sparse, nested 4e4, lopsided, m=1) x 4 variants x 3 views are confirmed on T disjoint labellings within 6 standard errors. A watchdog reports a densification that does not return.",
          "Lemma 1 preconditions (no ties inside the block) are covered by arbitration; partition part is a finite-population statement",
          "DESIGN.md §2, §4 C08"),
+ "C02": ("model_checking",
+         "exhaustive enumeration of all weighted sets x all insertion orders x all entry points against the composition of the real single-item runs",
+         "For ProbMinHash2, 3, 3a and 3a-Sha (u64 and String keys), m in {2,3,4,8,16,(33)}: every non-empty weighted set over 4 (5) items x weights {absent,0.5,1,3,1e-300,1e300} (26975 sets quick), ALL insertion orders, every entry point (hash_item, hash_wset, IndexMap, std HashMap whose order is per-process random), every 2-way batch split and every re-insertion of an inserted pair at every later point - 2.3e6 executions quick. Oracle (exact): the registers read through hook H2 equal the position-wise minimum, and the signature the argmin, of the REAL single-item runs, which makes the signature a function of the weighted set; bit-equal ties are classified; every position holds an item of the set. Forced near-ties (weights tuned from real single-item runs so that two items differ by 1e-9..3e-15 at a chosen position, both orders), scaling by 2^k, the union clause on sets up to 300 items, ProbMinHash3 == ProbMinHash3a on all sets, and single items with weights down to the smallest normal float (known finding for w < 1e-304).",
+         "hook H2 faithful; other weights/items behave like the alphabet since only comparisons of values scaling as 1/w matter",
+         "DESIGN.md §4 C02"),
 }
 PENDING_REASON = "check not built yet in this revision (see DESIGN.md §4 for the planned model-checking approach)"
 
